@@ -139,4 +139,33 @@ theorem guarded_muldiv_is_program (p g : Nat) (r : Round) (x y z : Int) (hz : z 
   rw [guarded_round g r _ _ hz]
   rfl
 
+/-! ## Rational (values/rational.py): `mul`, `div`, `muldiv` are the exact operations, `round` is ignored -/
+
+inductive REx
+  | a | b | c
+  | mul (x y : REx)          -- `Rational.__mul__(x, y)`
+  | div (x y : REx)          -- `Rational.__truediv__(x, y)`
+deriving DecidableEq, Repr
+
+def REx.eval (va vb vc : ℚ) : REx → ℚ
+  | .a => va | .b => vb | .c => vc
+  | .mul x y => x.eval va vb vc * y.eval va vb vc
+  | .div x y => x.eval va vb vc / y.eval va vb vc
+
+def rMulProg : REx := .mul .a .b
+def rDivProg : REx := .div .a .b
+def rMuldivProg : REx := .div (.mul .a .b) .c
+
+theorem rational_mul_is_program (r : Round) (x y : ℚ) : rationalArith.mul r x y = rMulProg.eval x y 0 := rfl
+
+theorem rational_div_is_program (r : Round) (x y : ℚ) (hy : y ≠ 0) : rationalArith.div r x y = rDivProg.eval x y 0 := by
+  show (if (y == 0) = true then 0 else x / y) = x / y
+  have : ¬ ((y == 0) = true) := by simpa using hy
+  rw [if_neg this]
+
+theorem rational_muldiv_is_program (r : Round) (x y z : ℚ) (hz : z ≠ 0) : rationalArith.muldiv r x y z = rMuldivProg.eval x y z := by
+  show (if (z == 0) = true then 0 else x * y / z) = x * y / z
+  have : ¬ ((z == 0) = true) := by simpa using hz
+  rw [if_neg this]
+
 end Droop.C12
